@@ -269,4 +269,9 @@ fire("C09", "token-without-pair", "R9.5", E(MG, "bpe_train", "            code_l
 fire("C09", "replay-configured-limit", "R9.5", E(MG, "BytePairEncodingVectorizer.transform", "bpe_encode_all(X, self.code_list_, self.max_char_code_)", "bpe_encode_all(X, self.code_list_, _named_limit_to_max_char_code(self.max_char_code))"), "transform replays with the configured instead of the fitted character limit")
 fire("C11", "posterior-offset-next-row", "R11.4", E(COO, "em_update_matrix", "                posterior_data[\n                    prior_indptr[target_gram_ind] + context_ind[i + win_offset[w]]\n                ] += val", "                posterior_data[\n                    prior_indptr[target_gram_ind + 1] + context_ind[i + win_offset[w]]\n                ] += val"), "posterior mass written relative to the next row's start")
 
+fire("C18", "js-asymmetric-mixture", "R18.4", E(DIST, "jensen_shannon_divergence", "m = 0.5 * (pdf_x + pdf_y)", "m = 0.5 * pdf_x + 0.5 * pdf_x"), "the mixture uses one argument twice")
+fire("C18", "tv-one-sided-normalisation", "R18.4", E(DIST, "total_variation", "    y_pdf = y / y_sum\n", "    y_pdf = y / x_sum\n"), "second argument normalised by the first argument's mass")
+fire("C18", "symkl-drops-term", "R18.4", E(DIST, "symmetric_kl_divergence", "        result += pdf_x[i] * np.log(pdf_x[i] / pdf_y[i]) + pdf_y[i] * np.log(\n            pdf_y[i] / pdf_x[i]\n        )", "        result += pdf_x[i] * np.log(pdf_x[i] / pdf_y[i])"), "only one direction of the KL divergence is summed")
+silent("C18", "hellinger-commuted", E(DIST, "hellinger", "result += np.sqrt(x[i] * y[i])", "result += np.sqrt(y[i] * x[i])"), "commuted product")
+
 VARIANTS = V
